@@ -127,6 +127,9 @@ def run_case(case, ctx):
     else:
         o = call(curve.degree_decrease, t, **kwargs)
     V = ref.lowered_vector(rc.U, t) if p - t >= 0 else None
+    if regime == "reduce-exact" and not judged:
+        ctx.count("unjudged_float")  # float images on long / far intervals: the 1e-9 tolerance meets rounding noise
+        return
     if regime == "reduce-exact":
         ctx.count("reduce_exact")
         bU, bP, bW, _ = cv.dec_curve(case["base"])
